@@ -14,7 +14,26 @@ def _c18_parts(tier):
     ]
 
 
+def _c15_parts(tier):
+    q = tier == "quick"
+    return [
+        {"engine": "registry", "params": {"max_ops": 10 if q else 25}, "runs": 60_000 if q else 2_000_000,
+         "per_fork": 200, "wall_s": 60 if q else 900},
+    ]
+
+
 SPECS = {
+    "C15": {
+        "level": "exploration",
+        "parts": _c15_parts,
+        "rule": "case = (1-2 registries x formatter x protected-tags, op history over 3 names x 3 classes); distinct = "
+                "distinct blake2b of it; non-trivial = the model raises on at least one op or a tag shared by two "
+                "registered names loses one of them",
+        "real_vs_stub": REAL_STATE,
+        "no_faults_reason": "none applicable: the statement has no I/O, clock, thread or crash; histories only",
+        "assumptions": ["each registry owns a private django.template.Library (as in the property's quantifier)",
+                        "classes have distinct names (the library identifies a class by name+module hash)"],
+    },
     "C18": {
         "level": "exploration",
         "parts": _c18_parts,
